@@ -191,11 +191,45 @@ class LeakSc(calsim.Scenario):
         self.cur_ports = [p1 - 1, p2 - 1]
         return super().add_through(p1, p2, *a, **k)
 
+    cur_conn = None
+
+    def add_chain(self, ports, V):
+        """a known standard on `ports` (1-based, in the standard's port order) whose neighbouring ports are joined and whose other
+        off-diagonal cells are exact zeros: those cells carry signal through the ports in between (the library's connectivity matrix,
+        Model/Connect.lean), they are not leakage samples"""
+        from props import c20
+        k, n = len(ports), self.p
+        H = [[0] * k for _ in range(k)]
+        hd = self.next_param
+        for i in range(k):
+            for j in range(k):
+                if V[i][j] != 0:
+                    self.lines.append('cal make_scalar %d %s' % (self.c, vlib.c2h(complex(V[i][j]))))
+                    H[i][j] = hd
+                    hd += 1
+        self.next_param = hd
+        nz = [1] * (n * n)
+        for r in range(n):
+            for c in range(n):
+                rin, cin = (r + 1) in ports, (c + 1) in ports
+                if rin and cin:
+                    nz[r * n + c] = int(V[ports.index(r + 1)][ports.index(c + 1)] != 0)
+                elif rin != cin:
+                    nz[r * n + c] = 0
+        self.cur_ports = [q - 1 for q in ports]
+        self.cur_conn = np.array(c20.closure(n, n, nz), bool).reshape(n, n)[:self.rows, :self.cols]
+        S = calsim.embed(n, self.cur_ports, V, self.others)
+        self.lines.append('cal add %d mapped %s %d %d %s M %s' % (self.n, self.mtext(self.meas([S] * self.nf)), k, k, ' '.join(str(h) for row in H for h in row),
+                                                                ' '.join(str(q) for q in ports)))
+        self.cur_conn = None
+
+    next_param = 3
+
     def meas(self, Sfull_by_f, rows_sel=None, cols_sel=None):
         Mf = [self.box.measure(Sfull_by_f[f], f) for f in range(self.nf)]
         if self.recording:
             S = np.asarray(Sfull_by_f[0], complex)
-            conn = (np.abs(S) > 0)[:self.rows, :self.cols]
+            conn = (np.abs(S) > 0)[:self.rows, :self.cols] if self.cur_conn is None else self.cur_conn.copy()
             # the library only takes a cell as free of a signal path where the standard says so: between two VNA ports that are both
             # outside the standard nothing is known (union-find over the S cells that are not known zeros, vnacal_new_add_common.c)
             out_ = [q for q in range(self.p) if q not in self.cur_ports]
@@ -222,6 +256,7 @@ def leakage_terms(chk, exe, rng, reps, tmpdir, broken):
     """tie of Model/Leakage.lean: the leakage terms vnacal_save writes are the model's averages over the standards as they were
     given (full and abbreviated measurement matrices mixed, several samples per cell that differ from each other)"""
     lines_m, wants = [], []
+    chains = 0
     for rep in range(reps):
         for typ in ('TE10', 'UE10', 'UE14'):
             n = rng.choice([2, 3])
@@ -233,6 +268,11 @@ def leakage_terms(chk, exe, rng, reps, tmpdir, broken):
                 i, j = rng.sample(range(1, n + 1), 2)
                 sc.add_double_reflect(i, j, rng.choice([calsim.SHORT, calsim.OPEN]), rng.choice([calsim.OPEN, calsim.MATCH]),
                                       abbreviated=rng.choice(['full', 'both']) if n > 2 else 'full')
+            if n == 3 and rng.random() < 0.7:
+                # a chain p0 - p1 - p2: the cells between p0 and p2 are exact zeros, yet there is a path
+                V = [[calsim.rc(rng, 0.25) + (0.5 if abs(i - j) == 1 else 0.0) if abs(i - j) <= 1 else 0 for j in range(3)] for i in range(3)]
+                sc.add_chain(rng.sample([1, 2, 3], 3), V)
+                chains += 1
             sc.recording = False
             path = os.path.join(tmpdir, 'lk-%d-%s.vnacal' % (rep, typ))
             sc.solve().add_calibration(b'c')
@@ -261,6 +301,7 @@ def leakage_terms(chk, exe, rng, reps, tmpdir, broken):
                             toks.append(vlib.c2h(given[(r, c)]))
             lines_m.append('lk %d %d %s' % (n * n, len(sc.record), ' '.join(toks)))
             wants.append((tag, n, el, sc.lines))
+    chk.count('leakage_chain_standards', chains)
     mout, mrc, merr = vlib.run_lines(vlib.model_exe(), lines_m)
     if mrc != 0 or len(mout) != len(lines_m):
         broken.append('model driver failed on the leakage script: rc=%s %s' % (mrc, merr[-300:]))
